@@ -102,6 +102,12 @@ pub enum Op {
   WindowCounts(usize),
   /// group_by(x mod k) observed through flat_map(|g| g.map(tag(group#)))
   GroupBy(i64),
+  /// group_by(x mod k).flat_map(|g| g.take(1).map(tag(group#))): the subscriber of every
+  /// group leaves after its first item, while the outer stream goes on (= the first item of
+  /// every key, one group per key)
+  GroupFirsts(i64),
+  /// window_with_count(n).flat_map(|w| w.take(1).map(tag(window#))): the first item of every window
+  WindowFirsts(usize),
   Materialize,
   Dematerialize,
   Tap,
